@@ -220,7 +220,7 @@ func (c *verifBatchClient) Batch(remote string, bReq *batchRequest) (*BatchRespo
 		return &Transfer{Oid: o.Oid, Size: o.Size, Authenticated: true, Actions: ActionSet{rel: a}, Missing: o.Missing}
 	}
 	for _, o := range bReq.Objects {
-		nforms := 8
+		nforms := 11
 		switch e.env("object", nforms) {
 		case 0:
 			form := 0
@@ -251,6 +251,18 @@ func (c *verifBatchClient) Batch(remote string, bReq *batchRequest) (*BatchRespo
 		case 7: // plus an ERROR entry for an object nobody asked about
 			res.Objects = append(res.Objects, mk(o, 0), &Transfer{Oid: strings.Repeat("8", 64), Size: 7, Error: &ObjectError{Code: 404, Message: "no such object"}})
 			e.lastAct[o.Oid] = "action"
+		case 8: // listed twice, both entries per-object errors
+			mkErr := func() *Transfer {
+				return &Transfer{Oid: o.Oid, Size: o.Size, Error: &ObjectError{Code: 404, Message: "object-error-for-" + o.Oid[:4]}, Missing: o.Missing}
+			}
+			res.Objects = append(res.Objects, mkErr(), mkErr())
+			e.lastAct[o.Oid] = "error-twice"
+		case 9: // listed twice: an error entry, then an entry with an action
+			res.Objects = append(res.Objects, &Transfer{Oid: o.Oid, Size: o.Size, Error: &ObjectError{Code: 404, Message: "object-error-for-" + o.Oid[:4]}, Missing: o.Missing}, mk(o, 0))
+			e.lastAct[o.Oid] = "error+action"
+		case 10: // listed twice: an entry with an action, then an error entry
+			res.Objects = append(res.Objects, mk(o, 0), &Transfer{Oid: o.Oid, Size: o.Size, Error: &ObjectError{Code: 404, Message: "object-error-for-" + o.Oid[:4]}, Missing: o.Missing})
+			e.lastAct[o.Oid] = "action+error"
 		}
 	}
 	return res, nil
